@@ -559,3 +559,10 @@ fn conv_combining_class(n: u8) -> CanonicalCombiningClass {
         _ => Class::NotReordered,
     }
 }
+
+/// Verification hooks (compiled only with `--cfg rb_verif`).
+#[cfg(rb_verif)]
+#[allow(unused_imports, dead_code, missing_docs)]
+pub mod verif_hooks {
+    use super::*;
+}
